@@ -433,8 +433,10 @@ def formatSpec (line ans : String) : String :=
       let cm := ((fl.filter (·.startsWith "cm=")).headD "cm=?").drop 3 |>.toString
       -- an extension name spelled with trivia inside its parentheses: a separate finding class
       let xp := if fl.contains "xp=1" then "@spaced-ext-name" else ""
+      -- a comment directly behind the `/` of an Any type URL: a separate, narrow finding class
+      let sl := if fl.contains "sl=1" then "@slash-then-comment" else ""
       let cs :=
-        (if fl.contains "out=err" then ["does-not-compile:comments-" ++ cm] else []) ++
+        (if fl.contains "out=err" then ["does-not-compile:comments-" ++ cm ++ sl] else []) ++
         (if fl.contains "out=ok" && fl.contains "same=0" then
           ["descriptors-differ:" ++ (diff.drop 5).toString ++
             (if ((diff.drop 5).toString.splitOn "+").contains "options" then xp else "")] else []) ++
